@@ -897,3 +897,14 @@ def run_function(fn, inputs, ctx=None, interp_cls=Interp, consts=None, self_ty=N
     v = it.exec_block(env, body)
     v = it.finish_returns(env, v)
     return v, env, ctx, it
+
+
+def run_stmts(stmts, vars, ctx=None, consts=None, self_ty=None, features=None):
+    """Symbolically execute a statement slice in a prepared environment. Returns (value, env, ctx, interp);
+    env.returns holds early returns, env.pc the condition under which control reaches the end of the slice."""
+    ctx = ctx or Ctx()
+    it = Interp(ctx, consts)
+    if features is not None: it.features = set(features)
+    env = Env(ctx, dict(vars), TRUE, self_ty)
+    v = it.exec_block(env, {"k": "block", "stmts": stmts, "sp": [stmts[0]["sp"][0], stmts[-1]["sp"][1]]})
+    return v, env, ctx, it
